@@ -165,7 +165,7 @@ def real_reconnect(ops):
                 sc = Scenario([], {}, prate=0)
                 sc.key_seed = len(gens) + 1
                 sc.env = reads([sc.good_reply() + server_frame(1, b'one') + server_frame(1, b'two')]) + [('wait', 5, None)] * 3
-                w = W.World(sc)
+                w = W.World(sc, cur['world'].clock.t + 3.0 if 'world' in cur else 1000.0)
                 w.canon_write = W._canon_write_factory(w)
                 cur['sc'], cur['world'] = sc, w
                 g = ws.connect(session_class=one_cls, ping_rate=0.0)
